@@ -580,7 +580,7 @@ def make_check():
     return vlib.Check(
         PROP, pkg=PKG, props="Proofs.Props.C05", driver="drv_c05",
         lemma_files=["Proofs/Lemmas/Chunks.lean", "Proofs/Lemmas/Worker.lean", "Proofs/Lemmas/Parent.lean",
-                     "Proofs/Lemmas/Match.lean"],
+                     "Proofs/Lemmas/Match.lean", "Proofs/Lemmas/Total.lean"],
         model_files=["Model/CollocFiles.lean"],
         trusted=["hand-written model Model/CollocFiles.lean tied to Collocator.collocate_filesets/_process_caller/_should_save_cache/"
                  "_collocate_matches and FileSet.match/align by the correspondence run of this check (driver drv_c05: file matches, "
